@@ -117,8 +117,16 @@ def unit_kernel(name, pid):
     enc = load_encodable()
     nworld = z3.Int("nworld")
     shapes = {}
+    # host temporaries allocated per world by the launching function (AST of the current sources): part of C09 as well
+    mn_, base_ = name.split(".", 1)[0], name.split(".", 1)[-1].split("(")[0].split("#")[0]
+    labels_ = [lab for lab, _ in kh.arg_specs(k)]
+    temp_pw = {labels_[pos] for (m2, k2, pos) in generic.temp_per_world() if m2 == mn_ and k2 == base_ and pos < len(labels_)} if pid == "C09" else set()
+    temp_pw = {lab for lab in temp_pw if generic.arg_spec(lab) is None}
+    if temp_pw:
+      ctx.notes.append(f"per-world host temporaries (allocated with first dimension nworld by the launching function): {sorted(temp_pw)}")
+    _arg_spec = lambda lab: (("Temp", ("nworld",)) if lab in temp_pw else generic.arg_spec(lab))
     for label, t in kh.arg_specs(k):
-      sp = generic.arg_spec(label)
+      sp = _arg_spec(label)
       if sp and sp[1] and sp[1][0] == "nworld" and kh.is_array_type(t):
         shapes[label] = [nworld] + [None] * (t.ndim - 1)
     # builder kernels may capture batch sizes as closure constants: bind those arrays' batch dimension to what the host passed
@@ -176,7 +184,7 @@ def unit_kernel(name, pid):
     W = Wd
     per_world, batched = [], []
     for a in it.accesses:
-      sp = generic.arg_spec(a.cell.name)
+      sp = _arg_spec(a.cell.name)
       if sp is None or not sp[1]:
         continue
       owner, dims = sp
